@@ -52,7 +52,7 @@ def gen_case(rng):
     elif io['stop_method'] == 'fixed' and rng.random() < .1:
         io['max_iters'] = int(gens.pick(rng, [50, 200]))         # heavy over-sifting: many components on short records
     xo = gens.ext_opts(rng)
-    xp, _, tag = gens.present(rng, x, p_plain=.8)
+    xp, _, tag = gens.present(rng, x, dtypes=('int', 'float32', 'float16'), p_plain=.8)
     if tag in gens.VIEWS:
         xp = np.asarray(x)
     c = {'kind': 'sift', 'family': kind, 'x': xp, 'imf_opts': io, 'envelope_opts': eo, 'extrema_opts': xo, 'presentation': tag}
